@@ -70,7 +70,8 @@ func runC03(r *R) {
 // checkAccounting is the C03 oracle over the recorded event log.
 func checkAccounting(r *R, sp engSpec, res *engResult) {
 	evs := res.Evs
-	var fired, discarded, acquired, released, started int
+	var fired, discarded, acquired, released, started, lateDiscards int
+	returned := false
 	type ammoState struct{ acq, rel, shots int }
 	st := map[any]*ammoState{}
 	get := func(a any) *ammoState {
@@ -114,6 +115,11 @@ func checkAccounting(r *R, sp engSpec, res *engResult) {
 			}
 		case "discard":
 			discarded++
+			if returned {
+				lateDiscards++
+			}
+		case "run-returned":
+			returned = true
 		}
 	}
 	for _, g := range res.Factory.Guns {
@@ -151,6 +157,12 @@ func checkAccounting(r *R, sp engSpec, res *engResult) {
 	}
 	if !sp.Discard && discarded > 0 {
 		r.Fail("discard/with-discard-off", "%d samples reported as discarded although discard_overflow is off", discarded)
+	}
+	if lateDiscards > 0 {
+		// the balance is stated at the pool's end: a discarded sample handed to the aggregator after Engine.Run returned
+		// was not part of the results when the run was declared finished (real aggregators have stopped by then)
+		r.Fail("conservation/discard-after-pool-end", "%d of %d discarded samples were reported only after the run had returned: fired %d + discarded %d = %d at the pool's end, want %d",
+			lateDiscards, discarded, fired, discarded-lateDiscards, fired+discarded-lateDiscards, want)
 	}
 	if fired+discarded != want {
 		r.Fail(fmt.Sprintf("conservation/%s/%s", mode, cmpWord(fired+discarded, want)),
